@@ -28,6 +28,8 @@ U64d(b, at)  == <<U16(b, at), U16(b, at + 2), U16(b, at + 4), U16(b, at + 6)>>
 
 Pad(n, k) == (k - (n % k)) % k
 
+\* rpm's header magic is eight bytes: the four below and four zero ("reserved") bytes
+ReservedZero(b, h) == InB(b, h + 7) /\ B(b, h + 4) = 0 /\ B(b, h + 5) = 0 /\ B(b, h + 6) = 0 /\ B(b, h + 7) = 0
 Magic(b, h)   == InB(b, h + 3) /\ B(b, h) = 142 /\ B(b, h + 1) = 173 /\ B(b, h + 2) = 232 /\ B(b, h + 3) = 1
 IntroSmall(b, h) == InB(b, h + 15) /\ Small(b, h + 8) /\ Small(b, h + 12)
 NIndex(b, h)  == U32(b, h + 8)
@@ -72,7 +74,7 @@ DataLen(b, s0, lim, e) ==
 (* rpm's header-loading rules (its hdrblobVerify family): the validity of a header   *)
 (* with region tag R whose intro starts at h.                              *)
 HdrChk(b, h, R) ==
-    /\ Fits(b, h)
+    /\ Magic(b, h) /\ Fits(b, h)
     /\ LET n  == NIndex(b, h)
            dl == DSize(b, h)
            s0 == StoreAt(b, h)
@@ -105,7 +107,7 @@ HdrChk(b, h, R) ==
 \* header is well formed in this wider sense, provided no tag occurs twice (so that "the tag's value"
 \* is unambiguous).
 HdrChkLoose(b, h, R) ==
-    /\ Fits(b, h)
+    /\ Magic(b, h) /\ Fits(b, h)
     /\ LET n  == NIndex(b, h)
            dl == DSize(b, h)
            s0 == StoreAt(b, h)
